@@ -289,7 +289,7 @@ class Ctx:
         got = self.counts.get(rule, 0)
         if got < minimum:
             raise AnalysisError(self.prop, rule,
-                                f"examined {got} instances, floor confirmed by hand is {minimum}")
+                                f"examined {got} instances, below the floor {minimum} (60% of the count confirmed by hand)")
 
     def broken(self, anchor, why):
         raise AnalysisError(self.prop, anchor, why)
@@ -337,7 +337,9 @@ def run_property(prop, tier, repo, mod, seed=0, write_evidence=True, quiet=False
                 continue
             if any(f.rule == rule or f.rule.startswith(rule + ".") for f in ctx.findings):
                 continue
-            ctx.floor(rule, minimum)
+            # FLOORS records the count confirmed by hand on the pinned tree; what is enforced is 60% of it, so
+            # that a refactoring which merges instances (a loop over a table instead of a chain) is not refused.
+            ctx.floor(rule, max(1, (minimum * 3) // 5))
     except AnalysisError as e:
         say(f"ANALYSIS-ERROR {e}")
         return 2, [], None
